@@ -127,6 +127,11 @@ class ObjModel(object):
             self.ev.inline(st, init, None, [self.self_ref, Opaque("vector", ["vector"])], {}, init.node, self.module)
         except Dead:
             self.alive = False
+        except AnalysisError as e:
+            # the construction could not be followed to the end: what was seen on the way (e.g. an
+            # iteration over the parsed map in field order) is kept for the rules that need only that
+            e.partial_events = list(self.ev.events)
+            raise
         self.init_events_end = len(self.ev.events)
 
     # ---- v4: assume/guarantee summaries ----------------------------------------------------
